@@ -397,7 +397,7 @@ def parse_kv(line):
 # --------------------------------------------------------------------------
 
 def compare(run, cases, impl, model, canon_model=None, canon_impl=None, signature=None,
-            nontrivial=None, context=None, max_replays=3):
+            nontrivial=None, context=None, max_replays=3, get_impl=None, impl_for_spec=None):
     """impl[i] is 'impl=<obs>', model[i] is 'model=<obs> spec=<obs>'.
     property mismatch: impl != spec (VIOLATION unless a known-finding signature matches)
     correspondence mismatch: impl != model while impl == spec (model is stale)"""
@@ -408,6 +408,8 @@ def compare(run, cases, impl, model, canon_model=None, canon_impl=None, signatur
         if mo.startswith("SKIP") or im.startswith("SKIP"):
             continue
         ikv, mkv = parse_kv(im), parse_kv(mo)
+        if get_impl:
+            ikv = {"impl": get_impl(im)}
         if mo.startswith("ERROR") or "model" not in mkv or "impl" not in ikv:
             corr_mis.append((i, c, im, mo))
             continue
@@ -420,14 +422,15 @@ def compare(run, cases, impl, model, canon_model=None, canon_impl=None, signatur
             iv = canon_impl(iv)
         if nontrivial is None or nontrivial(c, iv):
             distinct.add(hashlib.sha256((c + "|" + iv).encode()).digest()[:8])
-        if iv != sv:
+        ivs = impl_for_spec(iv) if impl_for_spec else iv
+        if ivs != sv:
             sig = signature(c, iv, mv, sv, context(i) if context else None) if signature else None
             if sig and any(k["signature"] == sig for k in run.known):
                 run.known_hit(sig, c if len(c) < 160 else c[:160] + "...")
                 if iv != mv:
                     corr_mis.append((i, c, im, mo))
             else:
-                prop_mis.append((i, c, iv, mv, sv))
+                prop_mis.append((i, c, ivs, mv, sv))
                 if iv != mv:
                     corr_mis.append((i, c, im, mo))
         elif iv != mv:
@@ -527,7 +530,118 @@ def check_C13(run, replay=None):
     return run.finish()
 
 
-CHECKS = {"C19": check_C19, "C13": check_C13}
+# ---- router family --------------------------------------------------------
+
+def fam_impl(im):
+    kv = parse_kv(im)
+    if "status" not in kv:
+        return "?" + im
+    return kv["status"] + "|" + kv.get("trace", "-")
+
+
+def fam_impl_for_spec(iv):
+    """projection compared with the declarative spec: authenticator call events
+    dropped (which hooks are consulted is not part of the property), preflight
+    header list compared as a set"""
+    st, _, tr = iv.partition("|")
+    evs = []
+    for e in tr.split(";"):
+        if e.startswith("A") and "(" in e:
+            continue
+        m = re.match(r"CORS\(([^;]*);([^)]*)\)$", e)
+        if m:
+            hs = m.group(2)
+            if hs != "-":
+                names = sorted(set(bytes.fromhex(hs).decode("latin1").split(",")))
+                hs = ",".join(names).encode("latin1").hex()
+            e = "CORS(%s;%s)" % (m.group(1), hs)
+        if e and e != "-":
+            evs.append(e)
+    return st + "|" + (";".join(evs) if evs else "-")
+
+
+def fam_context(cases):
+    """index -> the D and S lines of the request's package"""
+    heads = {}
+    for c in cases:
+        if c.startswith("D ") or c.startswith("S "):
+            heads.setdefault(c.split(" ", 2)[1], []).append(c)
+
+    def ctx(i):
+        f = cases[i].split(" ", 2)
+        return heads.get(f[1], []) if len(f) > 1 else []
+    return ctx
+
+
+def fam_report_bad_packages(run, meta, allowed=None):
+    """a package of the corpus that does not generate or compile is itself an
+    observation; for the router family every corpus spec is in the dialect, so
+    it is a failure of the tie (reported as a violation of the property being
+    checked, with the document as replay)"""
+    bad = meta.get("packages_bad") or []
+    for b in bad[:3]:
+        run.violation({"property": run.prop, "broken": "corpus package does not generate/compile",
+                       "generr": b["generr"], "genpanic": b["genpanic"], "builderr": b["builderr"],
+                       "doc": b["doc"]}, None)
+    return len(bad)
+
+
+def decode_rline(c):
+    f = c.split(" ")
+    if f[0] != "R" or len(f) < 9:
+        return c
+    ux = lambda h: "" if h == "-" else bytes.fromhex(h).decode("latin1")
+    return {"pkg": f[1], "api_cfg": f[2], "method": f[3], "url": ux(f[4]), "headers": ux(f[5]), "path": ux(f[7])}
+
+
+def check_router_family(run, replay, rule, trusted, signature=None, extra_cov=None):
+    proof_ok = run.proof_side()
+    cases, impl, model, meta = run.run_vh(["-cases", replay] if replay else None)
+    ctx = fam_context(cases)
+    nbad = fam_report_bad_packages(run, meta)
+    compare(run, cases, impl, model, get_impl=fam_impl, impl_for_spec=fam_impl_for_spec,
+            nontrivial=lambda c, iv: not iv.startswith("404|"), context=ctx, signature=signature)
+    ridx = [i for i, c in enumerate(cases) if c.startswith("R ")]
+    pick = [ridx[k] for k in sorted({0, len(ridx) // 3, len(ridx) // 2, len(ridx) - 1})] if ridx else []
+    dispatched = sum(1 for i in ridx if not impl[i].startswith("status=404"))
+    run.coverage.update({
+        "rule": rule,
+        "programs": meta.get("packages_ok", 0),
+        "packages_not_built": nbad,
+        "input_distribution": dict({k: v for k, v in meta.items() if k not in ("packages_bad",)},
+                                   requests=len(ridx), requests_not_404=dispatched),
+        "samples": [{"request": decode_rline(cases[i]), "impl": impl[i][:300], "model_and_spec": model[i][:400]} for i in pick],
+        "trusted_base": TRUSTED_COMMON + trusted,
+    })
+    if extra_cov:
+        run.coverage.update(extra_cov)
+    if not proof_ok:
+        run.violation(dict(getattr(run, "coq_failure", {}), input=None), None, note="no-failing-input-found")
+    return run.finish()
+
+
+ROUTER_TRUSTED = [
+    "modelled, not verified: the Go semantics of the emitted router (Model/Router.v route = template \"Route\", Model/Serve.v serve = API.ServeHTTP), "
+    "Route.add (Model/Router.v add), NewRouter (Model/Serve.v gen_*); tied to /repo by running every request of the universe through the compiled "
+    "generated package and the extracted model",
+    "oracles: net/url parsing of the request line (URL.Path, URL.Query()) and url.Parse(servers[0].url).Path are computed by the harness with net/url and handed to the model",
+    "the reflective driver (scratch/reg) and the AST-generated zz_driver_gen.go installed into each generated package",
+]
+
+
+def check_C03(run, replay=None):
+    return check_router_family(
+        run, replay,
+        rule="template sets (all sets of <=2 non-equivalent templates of depth<=2 over {a,b,{v},trailing-slash} in thorough, a seeded subset in quick; "
+             "seeded random sets of 3-7 templates of depth<=4) x 10 base-path forms (flag / servers URL / variables / trailing slash / '/'); for each "
+             "package ALL request paths up to the stated depth over the set's literals + a foreign literal + the empty segment, under the base path and "
+             "near-miss bases, x declared and undeclared methods; each request runs through the compiled package (handler identity from the generated "
+             "Path()/Method(), SchemaPath seen by a middleware) and through the extracted model and reference matcher; non-trivial = not a 404; "
+             "distinct by (request, observation)",
+        trusted=ROUTER_TRUSTED)
+
+
+CHECKS = {"C19": check_C19, "C13": check_C13, "C03": check_C03}
 
 
 def setup():
